@@ -17,13 +17,15 @@ Section Main.
 Hypothesis Hcodec : codec_statement.
 Hypothesis Htotal : compile_total_statement.
 Variable ty : N.
+Variable ver : N.
+Hypothesis Hver : 1 <= ver <= 3.
 
 (* compile, as seen from the stack: the returned address denotes the requested node *)
 Lemma compile_ok2 E b n b' r :
-  minv ty E b -> node_ok E n ->
+  minv ver ty E b -> node_ok E n ->
   NODE_MAX * (len E + 1) + 100 < U64 ->
   compile b n = (b', r) ->
-  exists E' a, r = Ok a /\ minv ty E' b' /\
+  exists E' a, r = Ok a /\ minv ver ty E' b' /\
     b_stack b' = b_stack b /\ b_last b' = b_last b /\ b_len b' = b_len b /\
     ext1 E E' /\ len E' <= len E + 1 /\ tgt_ok E' a /\ a <> NONE_ADDRESS /\
     elang E' a = lang_node (elang E) n /\
@@ -33,8 +35,8 @@ Lemma compile_ok2 E b n b' r :
     (bbytes b -> bbytes b').
 Proof.
   intros Hm Hn Hsz Hc.
-  pose proof (compile_bbytes ty E b n b' r Hm Hn Hsz Hc) as Hbb.
-  destruct (compile_ok Hcodec Htotal ty E b n b' r Hm Hn Hsz Hc)
+  pose proof (compile_bbytes ver ty E b n b' r Hm Hn Hsz Hc) as Hbb.
+  destruct (compile_ok Hcodec Htotal ver ty E b n b' r Hver Hm Hn Hsz Hc)
     as (E' & a & Hr & Hm' & F1 & F2 & F3 & Hcase).
   assert (Hstr : E' = E \/ exists s, E' = (a, s) :: E /\ bn_of s = n).
   { destruct Hcase as [(-> & _)|(s & -> & Hs)]; [left; reflexivity|right; exists s; auto]. }
@@ -69,7 +71,7 @@ Definition vtop (u : unf) (addr : option N) : unf :=
   match addr with None => u | Some a => mkUnf (freeze u a) None end.
 
 Lemma node_ok_top E lo t k L : sinv E (lo ++ [t]) k L -> u_last t = None -> node_ok E (u_node t).
-Proof.
+Proof. clear Hver.
   intros [Hs Hu HW _ _] Ht.
   destruct (shape_app_inv lo [t] k Hs) as (Hlo & _); [discriminate|].
   apply Forall_app in Hu. destruct Hu as (_ & Hu). inversion Hu as [|? ? Hu1 _]; subst.
@@ -81,7 +83,7 @@ Qed.
 
 Lemma shape_two lo p t k : shape (lo ++ [p; t]) k ->
   lasts lo (firstn (length lo) k) /\ exists c o, u_last p = Some (c, o) /\ u_last t = None.
-Proof.
+Proof. clear Hver.
   intros Hs. destruct (shape_app_inv lo [p; t] k Hs) as (Hlo & Hpt); [discriminate|]. split; [exact Hlo|].
   destruct (skipn (length lo) k) as [|c [|c2 k2]]; cbn [shape] in Hpt.
   - destruct Hpt as (_ & X); discriminate.
@@ -91,23 +93,23 @@ Qed.
 
 Lemma Cpost_top_Fro cl lo p t k q v : shape (lo ++ [p; t]) k -> (q <= length lo)%nat ->
   Cpost cl (lo ++ [p; t]) [] q v -> Fro cl (u_node t).
-Proof.
+Proof. clear Hver.
   intros Hs Hq HC. destruct (shape_two _ _ _ _ Hs) as (Hlo & c & o & Hp & Ht).
   apply (Cpost_app _ lo _ _ _ _ _ Hlo Hq) in HC. destruct HC as (_ & HC).
   cbn [Cpost] in HC. rewrite Hp in HC. tauto.
 Qed.
 
 Lemma trimmed_freeze p c o a : u_last p = Some (c, o) -> trimmed (freeze p a).
-Proof. intros H. right. unfold freeze. rewrite H. cbn [n_trans]. destruct (n_trans (u_node p)); discriminate. Qed.
+Proof. clear Hver. intros H. right. unfold freeze. rewrite H. cbn [n_trans]. destruct (n_trans (u_node p)); discriminate. Qed.
 
 Lemma cfr_ok : forall rest u b addr E k L keep b' r,
-  minv ty E b ->
+  minv ver ty E b ->
   sinv E (rev rest ++ [vtop u addr]) k L ->
   (addr = None -> u_last u = None) ->
   NODE_MAX * (len E + len (u :: rest)) + 100 < U64 ->
   strim E -> bbytes b -> ((keep < length rest)%nat -> trimmed (u_node (vtop u addr))) ->
   compile_from_rev b (u :: rest) keep addr = (b', r) ->
-  exists E' rst, r = Ok rst /\ minv ty E' b' /\ b_last b' = b_last b /\ b_len b' = b_len b /\
+  exists E' rst, r = Ok rst /\ minv ver ty E' b' /\ b_last b' = b_last b /\ b_len b' = b_len b /\
     len E' + len rst <= len E + len (u :: rest) /\
     sinv E' (rev rst) (firstn keep k) L /\
     (((length rest <= keep)%nat /\ rst = vtop u addr :: rest /\ E' = E) \/
@@ -190,7 +192,7 @@ Qed.
 
 Lemma minv_frame E b b2 :
   b_out b2 = b_out b -> b_count b2 = b_count b -> b_reg b2 = b_reg b -> b_last_addr b2 = b_last_addr b ->
-  b_version b2 = b_version b -> minv ty E b -> minv ty E b2.
+  b_version b2 = b_version b -> minv ver ty E b -> minv ver ty E b2.
 Proof.
   intros H1 H2 H3 H4 H5 (HE & [B1 B2 B3 B4 B5 B6] & HR). split; [exact HE|]. split.
   - constructor; unfold body in *; rewrite ?H1, ?H2, ?H4, ?H5; auto.
@@ -198,7 +200,7 @@ Proof.
 Qed.
 
 Lemma shape_top st k : shape st k -> exists lo t, st = lo ++ [t] /\ u_last t = None /\ lasts lo k.
-Proof.
+Proof. clear Hver.
   revert k; induction st as [|u st IH]; intros k; cbn [shape]; [tauto|].
   destruct k as [|c k].
   - intros (Hu & ->). exists [], u. cbn. auto.
@@ -206,14 +208,14 @@ Proof.
 Qed.
 
 Lemma bbytes_frame b b2 : b_out b2 = b_out b -> bbytes b -> bbytes b2.
-Proof. unfold bbytes, body. intros ->. auto. Qed.
+Proof. clear Hver. unfold bbytes, body. intros ->. auto. Qed.
 
 Lemma compile_from_ok E b k L keep b' r :
-  minv ty E b -> sinv E (b_stack b) k L ->
+  minv ver ty E b -> sinv E (b_stack b) k L ->
   NODE_MAX * (len E + len (b_stack b)) + 100 < U64 ->
   strim E -> bbytes b -> top_final (b_stack b) ->
   compile_from b keep = (b', r) ->
-  exists E', r = Ok tt /\ minv ty E' b' /\ b_last b' = b_last b /\ b_len b' = b_len b /\
+  exists E', r = Ok tt /\ minv ver ty E' b' /\ b_last b' = b_last b /\ b_len b' = b_len b /\
     len E' + len (b_stack b') <= len E + len (b_stack b) /\
     sinv E' (b_stack b') (firstn keep k) L /\
     (((length k <= keep)%nat /\ b_stack b' = b_stack b /\ E' = E) \/
@@ -255,7 +257,7 @@ Lemma cpl_spec : forall k bs, lex_cmp bs k <> Lt ->
   (cpl k bs = length bs -> bs = k) /\
   ((cpl k bs < length bs)%nat -> (cpl k bs < length k)%nat ->
      exists c b k2 bs2, skipn (cpl k bs) k = c :: k2 /\ skipn (cpl k bs) bs = b :: bs2 /\ c < b).
-Proof.
+Proof. clear Hver.
   induction k as [|c k IH]; intros [|b bs] Hcmp; cbn [cpl lex_cmp firstn length] in *.
   - splits; auto; lia.
   - splits; auto; try lia; discriminate.
@@ -272,10 +274,10 @@ Proof.
 Qed.
 
 Lemma cpl_refl k : cpl k k = length k.
-Proof. induction k as [|c k IH]; cbn [cpl length]; [reflexivity|]. rewrite N.eqb_refl, IH. reflexivity. Qed.
+Proof. clear Hver. induction k as [|c k IH]; cbn [cpl length]; [reflexivity|]. rewrite N.eqb_refl, IH. reflexivity. Qed.
 
 Lemma skipn_cons_length {A} n (l : list A) : (n < length l)%nat -> exists x r, skipn n l = x :: r.
-Proof.
+Proof. clear Hver.
   revert l; induction n as [|n IH]; intros [|y l] H; cbn [length skipn] in *; try lia; eauto.
   apply IH. lia.
 Qed.
